@@ -120,7 +120,7 @@ theorem invF_step {s s' : St} {t : Tid} {e : Ev} (hi : Inv s) (h : InvF s) (hs :
       · rw [upd_other _ _ _ _ ec] at hx; exact List.mem_append_left _ (hfwd c e x hx)
     · simp at e; subst e
       rw [upd_other _ _ _ _ hne, g3] at hx; cases hx
-  case eUnlPrev c orig pp x o hpc ho =>
+  case eUnlPrev c orig pp x z o hpc ho =>
     rw [hpc] at wr; simp only [CView, WriterP, NextIs, cview_order, cview_nodes, cview_lst] at wr
     obtain ⟨g1, _, _, ⟨g4, g4'⟩, g5⟩ := wr
     have hco : c ∈ s.order := hsub.subset g1
@@ -134,7 +134,7 @@ theorem invF_step {s s' : St} {t : Tid} {e : Ev} (hi : Inv s) (h : InvF s) (hs :
       have h2 : x' ∈ Below s.order c := hfwd c hco x' (by rw [hnx0 c g1, ← g5]; exact hx')
       exact below_trans hond h1 h2
     · rw [upd_other _ _ _ _ ec] at hx'; exact hfwd c' hc' x' hx'
-  case eUnlHead c orig x o hpc ho =>
+  case eUnlHead c orig x z o hpc ho =>
     refine ⟨(List.erase_sublist).trans hsub, ?_⟩
     intro c' hc' x' hx'
     exact hfwd c' hc' x' hx'
